@@ -844,6 +844,9 @@ class TexExpr(object):
         TexExpr('textbf', ['asdf', 'world', 'hello'])
         """
         self._assert_supports_contents()
+        # resolve the index once, as list.insert does: the pieces stay together
+        size = len(self._contents)
+        i = max(0, size + i) if i < 0 else min(i, size)
         for j, expr in enumerate(exprs):
             if isinstance(expr, TexExpr):
                 expr.parent = self
